@@ -11,19 +11,19 @@ import (
 )
 
 type OblResult struct {
-	Name    string   `json:"name"`
-	Family  string   `json:"family"`
-	Func    string   `json:"function"`
-	Paths   int      `json:"paths"`
-	Status  string   `json:"status"` // discharged | refuted | undecided
-	Backend string   `json:"backend"`
-	Millis  int64    `json:"ms"`
-	Pos     string   `json:"pos,omitempty"`
-	Model   string   `json:"model,omitempty"`
-	Trace   []string `json:"trace,omitempty"`
-	File    string   `json:"smt_file,omitempty"`
-	Output  string   `json:"solver_output,omitempty"`
-	Syntactic int    `json:"syntactic,omitempty"`
+	Name      string   `json:"name"`
+	Family    string   `json:"family"`
+	Func      string   `json:"function"`
+	Paths     int      `json:"paths"`
+	Status    string   `json:"status"` // discharged | refuted | undecided
+	Backend   string   `json:"backend"`
+	Millis    int64    `json:"ms"`
+	Pos       string   `json:"pos,omitempty"`
+	Model     string   `json:"model,omitempty"`
+	Trace     []string `json:"trace,omitempty"`
+	File      string   `json:"smt_file,omitempty"`
+	Output    string   `json:"solver_output,omitempty"`
+	Syntactic int      `json:"syntactic,omitempty"`
 }
 
 type FuncReport struct {
